@@ -30,6 +30,7 @@ def run(ctx):
     c_eval_errors_fail(ctx)
     d_flag(ctx)
     e_hide_prev_turn(ctx)
+    e_hide_total_and_consistent(ctx)
     e_marker_propagates(ctx)
 
 
@@ -382,7 +383,8 @@ def e_hide_prev_turn(ctx):
         for c in cuts:
             L = c.targets[0].id
             up = c.value.slice.upper
-            idx = [n.id for n in ast.walk(up) if isinstance(n, ast.Name)] if up is not None else []
+            fnames = {id(c_.func) for c_ in ast.walk(up) if isinstance(c_, ast.Call)} if up is not None else set()
+            idx = [n.id for n in ast.walk(up) if isinstance(n, ast.Name) and id(n) not in fnames] if up is not None else []
             bad = [i for i in idx if prov.get(i) not in (None, L)]
             unknown = [i for i in idx if prov.get(i) is None]
             lower_ok = c.value.slice.lower is None or src(c.value.slice.lower) == "0"
@@ -393,6 +395,64 @@ def e_hide_prev_turn(ctx):
                 ("`%s`: the cut position %s %s; positions in another list shift after an earlier cut, so a second failure hides the wrong span and earlier (blocked/failed) turns re-enter the conversation" % (
                     src(c), idx, "is a position in `%s`, not in `%s`" % (prov.get(bad[0]), L) if bad else "is not derived from a scan of `%s` for the last user utterance" % L))
             ctx.check("C03.e.hide-prev-turn", FL1, "compute_next_steps", src(c), ok, msg, line=c.lineno)
+
+
+def _handles_hidden_turns(t, fn, depth=0):
+    if fn is None or depth > 2:
+        return False
+    if any(isinstance(c, ast.Constant) and c.value == "hide_prev_turn" for c in ast.walk(fn)):
+        return True
+    for c in walk_no_nested(fn):
+        if isinstance(c, ast.Call) and isinstance(c.func, ast.Name):
+            if _handles_hidden_turns(t, find_function(t, c.func.id), depth + 1):
+                return True
+    return False
+
+
+def e_hide_total_and_consistent(ctx):
+    """(i) A failing action can occur in a turn that no user utterance started (custom event, bot-initiated): the hide_prev_turn handling must be total - no assertion
+    about what the scan finds.  (ii) The runtime decides whether an action's result needs a ContextUpdate by comparing with `compute_context(events)`; the flow state is
+    rebuilt from the history WITHOUT the hidden turns.  Both must see the same history, otherwise a rail variable that has the same value as in the hidden turn is never
+    delivered to the flow and the rail's `if` runs on an unset variable in every later turn."""
+    t = ctx.tree.ast(FL1)
+    steps = find_function(t, "compute_next_steps")
+    cctx = find_function(t, "compute_context")
+    if steps is None or cctx is None:
+        raise AnalysisError("compute_next_steps / compute_context not found", anchor=FL1 + "::compute_context")
+    # (i) the function that holds the handling
+    holder = steps
+    if not any(isinstance(n, ast.If) and "hide_prev_turn" in src(n.test) for n in walk_no_nested(steps)):
+        for c in walk_no_nested(steps):
+            if isinstance(c, ast.Call) and isinstance(c.func, ast.Name):
+                h = find_function(t, c.func.id)
+                if h is not None and any(isinstance(n, ast.If) and "hide_prev_turn" in src(n.test) for n in walk_no_nested(h)):
+                    holder = h
+    hides = [n for n in walk_no_nested(holder) if isinstance(n, ast.If) and "hide_prev_turn" in src(n.test)]
+    for h in hides:
+        asserts = [a for st in h.body for a in ast.walk(st) if isinstance(a, ast.Assert)]
+        ctx.check("C03.e.hide-total", FL1, holder.name, "hide_prev_turn handling", not asserts,
+                  "the handling makes no assumption about what started the hidden turn" if not asserts else
+                  "`%s`: when the failing action ran in a turn that was not started by a user utterance (flow triggered by a custom event) the assertion fails and generate() raises "
+                  "AssertionError instead of returning the internal-error message" % first_line(asserts[0], 70), line=(asserts[0].lineno if asserts else h.lineno))
+    # (ii)
+    rt = ctx.tree.ast(RT1)
+    psa = None
+    for f in functions(rt):
+        if f.name == "_process_start_action":
+            psa = f
+    if psa is None:
+        raise AnalysisError("_process_start_action not found", anchor=RT1 + "::_process_start_action")
+    diffs = [c for c in walk_no_nested(psa) if isinstance(c, ast.Compare) and re.match(r"^context\.get\(\w+\)\s*!=", src(c))]
+    from_full = any(isinstance(a, ast.Assign) and src(a.targets[0]) == "context" and isinstance(a.value, ast.Call) and src(a.value.func) == "compute_context" for a in walk_no_nested(psa))
+    if diffs and from_full:
+        ok = _handles_hidden_turns(t, cctx)
+        ctx.check("C03.e.context-same-history", RT1, qualname(psa), first_line(diffs[0], 60), ok,
+                  "the context the action result is compared with is computed from the history without the hidden turns, like the flow state" if ok else
+                  "a ContextUpdate for the action's result is emitted only if it differs from `compute_context(events)`, which still contains the ContextUpdates of hidden (failed) turns, "
+                  "while compute_next_steps rebuilds the flow state without them: after a failed turn, `$x = execute check` returning the same value again never reaches the flow "
+                  "and the rail's `if $x` is false in every later turn (fail open)", line=diffs[0].lineno)
+    else:
+        ctx.check("C03.e.context-same-history", RT1, qualname(psa), "context update emission", True, "the action's context updates are emitted without comparing against a second view of the history", line=psa.lineno)
 
 
 def e_marker_propagates(ctx):
